@@ -241,6 +241,9 @@ def cap_only(repo, chk):
                    P('sorted(set(cands), key=K)', ['K']), P('sorted(set(cands), key=K, reverse=R)', ['K', 'R']), P('list(set(cands))', []), P('sorted(list(cands), key=K)', ['K']), P('list(sorted(cands, key=K))', ['K']),
                    P('sorted(dict.fromkeys(cands), key=K)', ['K'])]
     seen = set()
+    # locals bound to a filtered copy of something ([c for c in .. if ..]): a test of their length relates the filter to the cap
+    filtered_names = {n.targets[0].id for n in own_nodes(fn.node) if isinstance(n, ast.Assign) and len(n.targets) == 1 and isinstance(n.targets[0], ast.Name)
+                      and isinstance(n.value, (ast.ListComp,)) and any(g.ifs for g in n.value.generators)}
     for assume, res in paths:
         if res.unknown is not None or res.returned is None:
             chk.unsure('C06.3s', 'R15', fn.site(res.unknown) if res.unknown is not None else fn.site(), 'return <selected>', 'a statement outside the path vocabulary decides what the sampler returns')
@@ -260,6 +263,13 @@ def cap_only(repo, chk):
                 why = f'the selection `{shown}` is not a prefix of length args.combination_number_upper_bound of the candidate list'
             elif any(unify(r, b['BASE']) is not None for r in reorderings):
                 ok = True
+            elif any(isinstance(x, tuple) and x and x[0] in ('listcomp', 'genexp') and any(g[1] for g in x[2]) for x in walk_term(b['BASE'])) and \
+                    (b['BASE'][0] == 'concat' or any(f'len({nm})' in ast.unparse(t_) for t_, _v in assume for nm in filtered_names) or
+                     any(isinstance(x, ast.Call) and isinstance(x.func, ast.Name) and x.func.id == 'len' and x.args and isinstance(x.args[0], (ast.ListComp, ast.GeneratorExp)) and any(g.ifs for g in x.args[0].generators)
+                         for t_, _v in assume for x in ast.walk(t_))):
+                # a filtered layer of the candidates followed by the rest, or a filtered layer whose length the path has compared with the cap:
+                # whether that is the cap-long prefix of a re-ordering of ALL candidates is not decided by this rule
+                unsure = True
             elif any(isinstance(x, tuple) and x and x[0] in ('listcomp', 'genexp') and any(g[1] for g in x[2]) for x in walk_term(b['BASE'])):
                 why = f'the prefix is taken of `{show(b["BASE"])[:80]}`, which is not (a re-ordering of) the whole candidate list: a filter before the cap can return fewer than min(cap, #candidates) pairs'
             else:
